@@ -52,6 +52,7 @@ type rec struct {
 	Arb   ATx
 	Tx    ATx
 	Res   Res
+	NoObs bool
 	ObsV1 []types.TransactionID
 	ObsV2 []ATx
 }
@@ -68,6 +69,8 @@ type Runner struct {
 	pendUpd []updRec
 	// DeferNext: the next recorded call does not read the pool; the call after it is made first
 	DeferNext bool
+	// Quiet: while set, no recorded call reads the pool
+	Quiet bool
 	// CorruptIndex: the next UpdateV2TransactionSet / V2TransactionSet call is given an index whose
 	// height contradicts the block it names (one shot)
 	CorruptIndex  bool
@@ -137,11 +140,12 @@ func (r *Runner) Pool() (v1 []types.Transaction, v2 []types.V2Transaction) {
 }
 
 func (r *Runner) observe(rc *rec) {
-	if r.DeferNext {
-		// the pool is not read now: the next call on the manager comes first, and what is read after
-		// it also serves as this call's observation (a read never changes what the pool reports)
+	if r.DeferNext || r.Quiet {
+		// the pool is not read now: the next call on the manager comes first; the trace entry says so
+		// (ObsNone) and the model makes no query there either
 		r.DeferNext = false
 		c := *rc
+		c.NoObs = true
 		r.deferred = append(r.deferred, c)
 		return
 	}
@@ -152,10 +156,7 @@ func (r *Runner) observe(rc *rec) {
 	for _, t := range v2 {
 		rc.ObsV2 = append(rc.ObsV2, r.W.AbsV2(t, r.meta(t.ID(), Meta{POK: true})))
 	}
-	for _, d := range r.deferred {
-		d.ObsV1, d.ObsV2 = rc.ObsV1, rc.ObsV2
-		r.recs = append(r.recs, d)
-	}
+	r.recs = append(r.recs, r.deferred...)
 	r.deferred = nil
 	r.recs = append(r.recs, *rc)
 }
@@ -407,6 +408,51 @@ func (r *Runner) Submit2(basis types.ChainIndex, txs []types.V2Transaction, meta
 	return
 }
 
+// Submit1Quiet / Submit2Quiet submit without reading the pool before or after (Quiet must be set).
+func (r *Runner) Submit1Quiet(txs []types.Transaction, metas []Meta) (known bool, err error, panicked bool) {
+	rc := rec{Op: "add1"}
+	for i, t := range txs {
+		if _, ok := r.Meta[t.ID()]; !ok {
+			r.Meta[t.ID()] = metas[i]
+		}
+		rc.Set = append(rc.Set, r.W.AbsV1(t, metas[i]))
+	}
+	func() {
+		defer func() {
+			if p := recover(); p != nil {
+				panicked = true
+				rc.Res = Res{Kind: "panic", Text: fmt.Sprint(p)}
+			}
+		}()
+		known, err = r.CM.AddPoolTransactions(txs)
+		rc.Res = Res{Kind: "verdict", Verdict: verdictOf(known, err)}
+	}()
+	r.observe(&rc)
+	return
+}
+
+func (r *Runner) Submit2Quiet(basis types.ChainIndex, txs []types.V2Transaction, metas []Meta) (known bool, err error, panicked bool) {
+	rc := rec{Op: "add2", Basis: basis}
+	for i, t := range txs {
+		if _, ok := r.Meta[t.ID()]; !ok {
+			r.Meta[t.ID()] = metas[i]
+		}
+		rc.Set = append(rc.Set, r.W.AbsV2(t, metas[i]))
+	}
+	func() {
+		defer func() {
+			if p := recover(); p != nil {
+				panicked = true
+				rc.Res = Res{Kind: "panic", Text: fmt.Sprint(p)}
+			}
+		}()
+		known, err = r.CM.AddV2PoolTransactions(basis, txs)
+		rc.Res = Res{Kind: "verdict", Verdict: verdictOf(known, err)}
+	}()
+	r.observe(&rc)
+	return
+}
+
 // Lookup1 / Lookup2 call PoolTransaction / V2PoolTransaction.
 func (r *Runner) Lookup1(id types.TransactionID) (t types.Transaction, ok, panicked bool) {
 	rc := rec{Op: "look", ID: id}
@@ -573,6 +619,7 @@ func (r *Runner) LastObs() ([]types.TransactionID, []ATx) {
 // CoqCase renders the recorded history.
 func (r *Runner) CoqCase() string {
 	if len(r.deferred) > 0 {
+		r.Quiet = false
 		rc := rec{Op: "query", Res: Res{Kind: "none"}}
 		r.observe(&rc)
 	}
@@ -701,7 +748,11 @@ func (r *Runner) CoqCase() string {
 		if rc.Res.Text != "" {
 			cmt = " (* " + strings.ReplaceAll(strings.ReplaceAll(rc.Res.Text, "*)", "* )"), "(*", "( *") + " *)"
 		}
-		tr = append(tr, fmt.Sprintf("(%s,\n    Obs (%s) %s %s)%s", op, res, nm.CoqIDs(rc.ObsV1), nm.CoqForm(rc.ObsV2), cmt))
+		if rc.NoObs {
+			tr = append(tr, fmt.Sprintf("(%s,\n    ObsNone (%s))%s", op, res, cmt))
+		} else {
+			tr = append(tr, fmt.Sprintf("(%s,\n    Obs (%s) %s %s)%s", op, res, nm.CoqIDs(rc.ObsV1), nm.CoqForm(rc.ObsV2), cmt))
+		}
 	}
 	start := r.W.Info(r.Start)
 	gen := r.W.Info(r.W.T.Nodes[0])
